@@ -523,7 +523,7 @@ func uniqStrings(a []string) []string {
 
 // constValue resolves a package-level constant.
 func (p *Program) constValue(pkgPath, name string) (constant.Value, bool) {
-	pk := p.Pkgs[pkgPath]
+	pk := p.AnyPkg(pkgPath)
 	if pk == nil {
 		return nil, false
 	}
